@@ -209,7 +209,8 @@ void Process::extractSignals()
 				if (op.source == hlim::Node_Rewire::OutputRange::INPUT) {
 					auto driver = rewireNode->getDriver(op.inputIdx);
 					if (driver.node != nullptr)
-						if (op.inputOffset != 0 || op.subwidth != getOutputWidth(driver))
+						// extracting the single bit of a 1 bit wide vector is formatted as driver(0): needs a name as well
+						if (op.inputOffset != 0 || op.subwidth != getOutputWidth(driver) || (hlim::outputIsBVec(driver) && rewireNode->getOutputConnectionType(0).isBool()))
 							potentialLocalSignals.insert(driver);
 				}
 			}
